@@ -45,7 +45,7 @@ def plan(tier, seed):
 def mandatory_bins(tier):
     b = ["curve_roundtrip", "pub_raw", "pub_uncompressed", "pub_compressed", "pub_hybrid", "pub_der_named", "pub_der_explicit", "pub_pem", "priv_raw", "priv_sec1_named", "priv_sec1_explicit",
          "priv_pkcs8_named", "priv_pkcs8_explicit", "priv_pem", "openssl_parses_library_output", "library_parses_openssl_output", "byte_equal_spki", "byte_equal_sec1", "leading_zero_coordinate",
-         "leading_zero_scalar", "small_scalar", "p256_header", "raw_fmt_inverse", "all_prefixes", "appended_suffix", "single_byte_mutations", "pem_cut", "openssl_compressed_spki", "openssl_explicit_params"]
+         "leading_zero_scalar", "small_scalar", "p256_header", "raw_fmt_inverse", "reencode_after_decode", "bec2_raw_key_wrong_length", "all_prefixes", "appended_suffix", "single_byte_mutations", "pem_cut", "openssl_compressed_spki", "openssl_explicit_params"]
     return b
 
 
@@ -152,7 +152,15 @@ def run_roundtrip(ns, ctx, spec):
                 except Exception as e:
                     ctx.violation("encoder_raises:pub_der", {"exc": fmt_exc(e), "params": params, "form": form}, rp)
                     continue
-                expect("pub_der_%s_%s" % (params, form), lambda: K.VerifyingKey.from_der(der_), same_pub)
+                kk = expect("pub_der_%s_%s" % (params, form), lambda: K.VerifyingKey.from_der(der_), same_pub)
+                if kk is not None:
+                    # the decoded key is the same key: its default (named-curve) encoding equals the original one
+                    ctx.bin("reencode_after_decode")
+                    try:
+                        if kk.to_der() != vk.to_der() or kk.to_pem() != vk.to_pem():
+                            ctx.violation("decoded_key_reencodes_differently:pub_der_" + params, {"curve": cv.name, "form": form}, rp)
+                    except Exception as e:
+                        ctx.violation("decoded_key_cannot_be_reencoded:pub_der_" + params, {"curve": cv.name, "exc": fmt_exc(e)}, rp)
                 ctx.bin("openssl_parses_library_output")
                 try:
                     if ossl.parse_spki(der_) != pub:
@@ -166,7 +174,13 @@ def run_roundtrip(ns, ctx, spec):
                     ctx.bin("openssl_compressed_spki")
                 if params == "explicit":
                     ctx.bin("openssl_explicit_params")
-                expect("openssl_spki_%s_%s" % (params, form), lambda: K.VerifyingKey.from_der(oder), same_pub)
+                kk = expect("openssl_spki_%s_%s" % (params, form), lambda: K.VerifyingKey.from_der(oder), same_pub)
+                if kk is not None:
+                    try:
+                        if kk.to_der() != vk.to_der():
+                            ctx.violation("decoded_key_reencodes_differently:openssl_spki_" + params, {"curve": cv.name, "form": form}, rp)
+                    except Exception as e:
+                        ctx.violation("decoded_key_cannot_be_reencoded:openssl_spki_" + params, {"curve": cv.name, "exc": fmt_exc(e)}, rp)
                 if params == "named_curve":
                     ctx.bin("byte_equal_spki")
                     if der_ != oder:
@@ -194,7 +208,14 @@ def run_roundtrip(ns, ctx, spec):
                     except Exception as e:
                         ctx.violation("encoder_raises:priv_der", {"exc": fmt_exc(e), "fmt": fmt, "params": params}, rp)
                         continue
-                    expect("priv_der_%s_%s_%s" % (fmt, params, form), lambda: K.SigningKey.from_der(der_), same_priv)
+                    kk = expect("priv_der_%s_%s_%s" % (fmt, params, form), lambda: K.SigningKey.from_der(der_), same_priv)
+                    if kk is not None:
+                        ctx.bin("reencode_after_decode")
+                        try:
+                            if kk.to_der() != sk.to_der() or kk.to_der(format="pkcs8") != sk.to_der(format="pkcs8") or kk.verifying_key.to_der() != vk.to_der():
+                                ctx.violation("decoded_key_reencodes_differently:priv_der_%s_%s" % (fmt, params), {"curve": cv.name}, rp)
+                        except Exception as e:
+                            ctx.violation("decoded_key_cannot_be_reencoded:priv_der_%s_%s" % (fmt, params), {"curve": cv.name, "exc": fmt_exc(e)}, rp)
                     ctx.bin("openssl_parses_library_output")
                     try:
                         od, opub = ossl.parse_private(der_)
@@ -352,6 +373,16 @@ def run_bec2(ns, ctx, spec):
             ctx.violation("bec2_der_of_raw_key_differs_from_openssl_spki", {"got": der_, "expected": ospki}, rp)
         if back != raw or k2.to_raw_bin_fmt() != raw:
             ctx.violation("bec2_raw_format_not_inverse", {"got": back, "expected": raw}, rp)
+        # the raw format is exactly 64 bytes X|Y: other lengths - even when they are another valid encoding of the point - are refused
+        bads = [raw[:-1], raw[1:], raw + b"\x00", b"\x04" + raw, ossl.encode_point("prime256v1", pub, ossl.POINT_COMPRESSED), ossl.encode_point("prime256v1", pub, ossl.POINT_HYBRID), raw[:32], b"", raw + raw]
+        for bad in bads[i % 3 :: 3]:
+            ctx.ev()
+            ctx.bin("bec2_raw_key_wrong_length")
+            try:
+                kb = C.create_public_ecc_key_from_raw_fmt(bad)
+                ctx.violation("bec2_raw_key_of_wrong_length_accepted", {"len": len(bad), "first": bad[:1], "gives_raw_len": len(kb.to_raw_bin_fmt())}, rp)
+            except Exception as e:
+                ctx.exc(e)
         priv = P.PrivateEccKeyProxy.create_from_der_fmt(ecies.sec1_der(d))
         if priv.public_key.to_raw_bin_fmt() != raw:
             ctx.violation("bec2_private_key_from_openssl_sec1_gives_other_public_key", {}, rp)
